@@ -94,6 +94,7 @@ NFC_TWIN = {'cafe\u0301': 'caf\xe9', '\u212b': '\xc5', '\u2126': '\u03a9', '\u21
             'q\u0307\u0323': 'q\u0323\u0307', '\ufb01': 'fi', 'e\u0301': '\xe9', 'n\u0303o': '\xf1o'}
 NAMES += NON_NFC + ['caf\xe9', '\xc5', '\ud55c']
 BAD_NAMES = ['', '.', '..', 'a/b', '@@v', '@@', '\ud800', '/']
+FALSY_KINDS = ['dict', 'len', 'bool']
 SCHEMEY = ['http:', 'https:', 'a:b', 'ftp:', 'HTTP:', 'x:', 'http:x', 'mailto:a@b', 'a:', 'http:?q', 'http:#f', 'urn:a:b']
 
 
@@ -273,7 +274,23 @@ def gen_case(rng):
     x = rng.random()
     script = '' if x < 0.7 else rng.choice(['/app', '/a b', wsgi('/é'), '/x/y', 'app', '/a%20b']) if x < 0.97 \
         else rng.choice(['/x\xff', '/€'])
-    return {'tree': tree, 'r': r, 'a': a, 'rel': rel, 'rel_str': rel_str, 'els': els, 'vroot': vroot, 'script': script}
+    case = {'tree': tree, 'r': r, 'a': a, 'rel': rel, 'rel_str': rel_str, 'els': els, 'vroot': vroot, 'script': script}
+    # falsy resources (the `class Folder(dict)` idiom, __len__ 0, __bool__ False) at any position, root included:
+    # truthiness must not matter for any observation
+    x = rng.random()
+    if x < 0.40:
+        pf = 1.0 if x < 0.06 else rng.choice([0.2, 0.4, 0.7])
+        fal = [[p, rng.choice(FALSY_KINDS)] for p in poss if rng.random() < pf]
+        for must in (r, a):
+            if rng.random() < 0.5 and not any(f[0] == must for f in fal):
+                fal.append([list(must), rng.choice(FALSY_KINDS)])
+        # a share of the falsy leaves become empty folders (the real `class Folder(dict)` situation)
+        for f in fal:
+            if f[0] and node_at(tree, f[0]) is None and rng.random() < 0.5:
+                par = node_at(tree, f[0][:-1])
+                par[f[0][-1]][1] = []
+        case['falsy'] = fal
+    return case
 
 
 VOCAB = ['a', 'ab', 'a b', 'é', 'b:', 'e\u0301']
@@ -346,9 +363,13 @@ def _valid_pos(tree, p):
 
 def valid(case):
     try:
-        if sorted(case) != ['a', 'els', 'r', 'rel', 'rel_str', 'script', 'tree', 'vroot']:
+        if sorted(k for k in case if k != 'falsy') != ['a', 'els', 'r', 'rel', 'rel_str', 'script', 'tree', 'vroot']:
             return False
         t = case['tree']
+        for f in case.get('falsy', []):
+            if not (isinstance(f, list) and len(f) == 2 and f[1] in FALSY_KINDS and isinstance(t, list)
+                    and _valid_pos(t, f[0])):
+                return False
         if not isinstance(t, list) or not _valid_tree(t) or not _valid_pos(t, case['r']) or not _valid_pos(t, case['a']):
             return False
         if not all(isinstance(s, str) for s in case['rel']) or not isinstance(case['rel'], list):
@@ -362,7 +383,7 @@ def valid(case):
         return False
 
 
-def shrinks(case):
+def _shrinks_core(case):
     from harness.common.main import generic_shrinks
     # cheap, meaning-preserving steps first
     if case['els']:
@@ -418,6 +439,52 @@ def shrinks(case):
             continue
         if isinstance(cand, dict) and cand.get('rel') != case['rel'] and case['rel_str'] == canon:
             cand = dict(cand, rel_str='/'.join(quote(s) for s in cand.get('rel') or []))
+        yield cand
+
+
+def _remap_falsy(case, cand):
+    """carry the falsy marks over to a shrunk tree: follow the NAMES of each marked position"""
+    fal = case.get('falsy')
+    if not fal or not isinstance(cand, dict):
+        return cand
+    t0, t1 = case['tree'], cand.get('tree')
+    if t1 == t0:
+        return cand
+    if not _valid_tree(t1) or not isinstance(t1, list):
+        return dict(cand, falsy=[])
+    # positions are matched by object identity of the path of names from the (possibly hoisted) root
+    out = []
+    hoist = len(case['r']) - len(cand.get('r', case['r'])) if cand.get('tree') is not None else 0
+    for pos, kind in fal:
+        names = names_at(t0, pos)
+        cands = [names] + ([names[1:]] if names else [])
+        for nm in cands:
+            t, p, ok = t1, [], True
+            for n in nm:
+                idx = [i for i, (k, _) in enumerate(t or []) if k == n]
+                if not idx:
+                    ok = False
+                    break
+                p.append(idx[0])
+                t = t[idx[0]][1]
+            if ok and [p, kind] not in out:
+                out.append([p, kind])
+                break
+    return dict(cand, falsy=out)
+
+
+def shrinks(case):
+    fal = case.get('falsy')
+    if fal:
+        yield {k: v for k, v in case.items() if k != 'falsy'}
+        for i in range(len(fal)):
+            yield dict(case, falsy=fal[:i] + fal[i + 1:])
+        for i, f in enumerate(fal):
+            if f[1] != 'bool':
+                yield dict(case, falsy=fal[:i] + [[f[0], 'bool']] + fal[i + 1:])
+    for cand in _shrinks_core({k: v for k, v in case.items() if k != 'falsy'} if not fal else case):
+        if isinstance(cand, dict) and 'falsy' in case and cand.get('falsy') == case.get('falsy'):
+            cand = _remap_falsy(case, cand)
         yield cand
 
 
@@ -516,13 +583,84 @@ def setup(tier):
                  build_tree=c02.build_tree, res_at=c02.res_at, Leaf=c02.Leaf)
 
 
+class Res7:
+    """a location-aware resource without __getitem__ (a leaf)"""
+    def __init__(self, name, parent, pos):
+        self.__name__, self.__parent__, self._pos = name, parent, pos
+
+    def __repr__(self):
+        return '<res %r>' % (self._pos,)
+
+
+class Folder7(Res7):
+    def __init__(self, name, parent, pos):
+        Res7.__init__(self, name, parent, pos)
+        self._items = []
+
+    def __getitem__(self, key):
+        for k, v in self._items:
+            if k == key:
+                return v
+        raise KeyError(key)
+
+
+class FalsyLeaf(Res7):
+    def __bool__(self):
+        return False
+
+
+class FalsyBoolFolder(Folder7):
+    def __bool__(self):
+        return False
+
+
+class FalsyLenFolder(Folder7):
+    """a container that reports no length (e.g. a lazily loaded folder)"""
+    def __len__(self):
+        return 0
+
+
+class DictFolder(dict):
+    """the `class Folder(dict)` idiom: children live in the dict itself, so an EMPTY folder is falsy"""
+    __hash__ = object.__hash__
+
+    def __init__(self, name, parent, pos):
+        dict.__init__(self)
+        self.__name__, self.__parent__, self._pos = name, parent, pos
+        self._items = []
+
+    def __repr__(self):
+        return '<dictfolder %r>' % (self._pos,)
+
+
+def build_tree7(t, falsy, name=None, parent=None, pos=()):
+    kind = falsy.get(tuple(pos))
+    if t is None:
+        return (FalsyLeaf if kind else Res7)(name, parent, list(pos))
+    cls = {None: Folder7, 'bool': FalsyBoolFolder, 'len': FalsyLenFolder, 'dict': DictFolder}[kind]
+    f = cls(name, parent, list(pos))
+    for i, (nm, c) in enumerate(t):
+        child = build_tree7(c, falsy, nm, f, pos + (i,))
+        f._items.append((nm, child))
+        if cls is DictFolder and nm not in f:           # first entry with that key wins, as in the model
+            dict.__setitem__(f, nm, child)
+    return f
+
+
+def res_at7(root, pos):
+    r = root
+    for i in pos:
+        r = r._items[i][1]
+    return r
+
+
 def _exc(e):
     n = type(e).__name__
     return [1, EXC[n]] if n in EXC else ['EXC', n, str(e)[:80]]
 
 
 def _pos(x):
-    return list(x._pos) if isinstance(x, _impl['Leaf']) else ['NOT-A-RESOURCE', repr(x)[:40]]
+    return list(x._pos) if isinstance(x, (Res7, DictFolder)) else ['NOT-A-RESOURCE', repr(x)[:40]]
 
 
 def _find(res, path):
@@ -572,9 +710,9 @@ def run_impl(case):
 
 def _run_once(case):
     T = _impl['T']
-    root = _impl['build_tree'](case['tree'])
-    r = _impl['res_at'](root, case['r'])
-    a = _impl['res_at'](root, case['a'])
+    root = build_tree7(case['tree'], {tuple(p): k for p, k in case.get('falsy', [])})
+    r = res_at7(root, case['r'])
+    a = res_at7(root, case['a'])
     els = tuple(case['els'])
     rel = tuple(case['rel'])
     env = dict(_impl['base'])
@@ -726,6 +864,23 @@ def kinds(case, obs):
     if _history_differs(obs) or len(obs) != NOBS:
         return ['history-differs' if _history_differs(obs) else 'harness-problem']
     ks = ['depth:%d' % min(len(case['r']), 4), 'vroot:' + _vroot_kind(case)]
+    fal = {tuple(p): k for p, k in case.get('falsy', [])}
+    if fal:
+        lin = [tuple(case['r'][:k]) for k in range(len(case['r']) + 1)]
+        if tuple(case['r']) in fal:
+            ks.append('falsy:r-itself')
+            t = node_at(case['tree'], case['r'])
+            ks.append('falsy:r-is-' + ('leaf' if t is None else 'empty-folder' if not t else 'folder-with-children'))
+        if () in fal:
+            ks.append('falsy:root')
+        if any(p in fal for p in lin[1:-1]):
+            ks.append('falsy:inner-ancestor')
+        if tuple(case['a']) in fal:
+            ks.append('falsy:start-resource')
+        for k in set(fal.values()):
+            ks.append('falsy-kind:' + k)
+    else:
+        ks.append('falsy:none')
     names = names_at(case['tree'], case['r'])
     if any(quote(n) != n for n in names):
         ks.append('lineage-needs-quoting')
